@@ -44,9 +44,10 @@ rm -f $DEMOFILE
 git -C $W diff > /tmp/wt/sv-$PID-$V.rebased.diff
 # 3. my check against the patched tree
 cd /verif
-CK=$(VERIF_EVIDENCE_DIR=/tmp/wt/sv-ev VERIF_REPLAY_DIR=/tmp/wt/sv-replay VERIF_REPO=$W ./check $PID quick 2>/tmp/wt/sv-check.err | grep -E "VIOLATION" | head -1)
+CK=$(VERIF_RUN_DIR=/tmp/wt/sv-run-$PID-$V VERIF_EVIDENCE_DIR=/tmp/wt/sv-ev-$PID-$V VERIF_REPLAY_DIR=/tmp/wt/sv-replay-$PID-$V VERIF_REPO=$W ./check $PID quick 2>/tmp/wt/sv-check-$PID-$V.err | grep -E "VIOLATION" | head -1)
 CRC=${PIPESTATUS[0]}
-WHY=$(grep -E "violated|VERIF-VIOLATION|panic:|fatal error|DATA RACE" /tmp/wt/sv-check.err | head -1 | cut -c1-260)
-rm -f /verif/.build/*-[0-9a-f][0-9a-f][0-9a-f][0-9a-f][0-9a-f][0-9a-f][0-9a-f][0-9a-f][0-9a-f][0-9a-f].test /verif/.build/go.*.mod /verif/.build/go.*.sum
-rm -rf /tmp/wt/sv-ev /tmp/wt/sv-replay
-echo "RESULT $PID/$V: demo_without=$([ $RC0 -eq 0 ] && echo pass || echo FAIL) demo_with=$([ $RC1 -ne 0 ] && echo fails || echo PASSES) $SUITE_RES check=$([ -n "$CK" ] && echo DETECTED || echo missed) :: $WHY"
+WHY=$(grep -E "violated|VERIF-VIOLATION|panic:|fatal error|DATA RACE|INFRA|STARVED|BUILD FAILED" /tmp/wt/sv-check-$PID-$V.err | head -1 | cut -c1-260)
+H=$(python3 -c "import hashlib;print(hashlib.sha1('$W'.encode()).hexdigest()[:10])")
+rm -f /verif/.build/*-$H.test /verif/.build/go.$H.mod /verif/.build/go.$H.sum
+rm -rf /tmp/wt/sv-ev-$PID-$V /tmp/wt/sv-replay-$PID-$V /tmp/wt/sv-run-$PID-$V
+echo "RESULT $PID/$V: demo_without=$([ $RC0 -eq 0 ] && echo pass || echo FAIL) demo_with=$([ $RC1 -ne 0 ] && echo fails || echo PASSES) $SUITE_RES check=$([ -n "$CK" ] && echo DETECTED || ([ $CRC -eq 2 ] && echo INFRA-ERROR || echo missed)) :: $WHY"
